@@ -497,7 +497,8 @@ MISMATCH_V = (r'out of range for CIM datatype|invalid literal for int\(\) with b
               r'Invalid format of CIM datetime value|The is_array parameter of .* but value|'
               r'Invalid format for an instance path in WBEM URI|WBEM URI has an invalid format|'
               r'specifies reference_class .* but is an array|specifies embedded_object')
-MISMATCH_T = r'dtarg argument .* has an invalid type|Input value has invalid type for a CIM reference'
+MISMATCH_T = (r"dtarg argument .* has an invalid type|Input value has invalid type for a CIM reference|"
+              r"^(int|float)\(\) argument must be a string.* not '(CIMInstanceName|CIMClass)'")
 
 # (exception type, production regex, message regex, known id, predicate name | None)
 KNOWN_ESCAPES = [
@@ -1023,7 +1024,9 @@ def f_numbers(env):
 TYPES = ['uint8', 'sint8', 'uint16', 'sint16', 'uint32', 'sint32', 'uint64', 'sint64', 'real32', 'real64', 'char16',
          'string', 'boolean', 'datetime', 'REF']
 INITS = ['5', '-5', '300', '1.5', "'c'", '"str"', '"20200101000000.000000+000"', 'true', 'null', '{1, 2}',
-         '{"a", "b"}', '{}', '$undefined_alias', 'SomeHandle', '{null}', '{true, 1, "x"}', '99999999999999999999999']
+         '{"a", "b"}', '{}', '$undefined_alias', 'SomeHandle', '{null}', '{true, 1, "x"}', '99999999999999999999999', '$mx_inst', '$mx_cls']
+ALIAS_PREFIX = (QKEY + 'class AL { [Key] uint8 k; };\ninstance of AL as $mx_inst { k = 1; };\n'
+                'class ALC as $mx_cls { };\n')
 
 
 def f_matrix(env):
@@ -1057,6 +1060,9 @@ def f_matrix(env):
                             continue
                         text = QUALS + 'class MX { uint8 m([In] %s a%s = %s); };\n' % (decl_t, arr, init)
                     exp = 'error' if init == '$undefined_alias' or ctx == 'param' else 'any'
+                    if init.startswith('$mx_'):
+                        text = text[len(QUALS):] if text.startswith(QUALS) else text
+                        text = ALIAS_PREFIX + QUALS[len(QKEY):] + text
                     case(env, 'matrix', (ctx, t, arr, init), text, expect=exp)
 
 
